@@ -307,18 +307,45 @@ def r4(ctx):
         bad = cfg.find_path(ln, ln, avoid_nodes={rn}, start_after=True)
         inbody = rn in cfg.loop_body_nodes(ln)
         ctx.ob(w.qual, "old-phasing-removed-from-every-record", bad is None and inbody, w.loc(rms[0]), "every record of a processed chromosome passes self._remove_existing_phasing before any skip (continue) can hand it to the writer" if bad is None and inbody else "a record can be written with its input phasing intact: a path through the record loop avoids _remove_existing_phasing", cfg.describe_path(bad) if bad else None)
-    # is_het definitions
-    defs = [(s, v) for s, v in util.assignments_to(w.node, "is_het") if isinstance(v, ast.AST)]
-    texts = sorted(u(v) for s, v in defs)
-    ok = texts == ["not genotypes[pos].is_homozygous()", "not gt_type.is_homozygous()"]
-    gt = util.single_def(w.node, "gt_type")
-    ok = ok and gt is not None and u(gt) == "genotype_code(call['GT'])"
-    ctx.ob(w.qual, "is_het-from-the-calls-own-genotype", ok, w.loc(), "is_het is derived from the call's own GT and re-derived from the new genotype after a change" if ok else "is_het definitions are %s (gt_type = %s)" % (texts, u(gt) if gt is not None else "?"))
-    for s, v in defs:
-        if "genotypes[pos]" in u(v):
-            st = [x for x in util.store_sites(w.node) if x.kind == "subscript" and util.const_key(x.target) == "GT"]
-            ok2 = bool(st) and s.parent is st[0].stmt.parent
-            ctx.ob(w.qual, "is_het-rederived-with-gt-change", ok2, w.loc(s), "the re-derivation sits in the block that changes GT" if ok2 else "is_het is re-derived outside the GT-changing block")
+    # heterozygosity test at the setter refers to the genotype the call HAS when it is written: on every path from the
+    # head of the per-sample loop to the setter, the established atom is `not X.is_homozygous()` with X the genotype
+    # stored into GT on that path, or the call's own GT if none was stored (path-sensitive, temporaries substituted)
+    from sa import pathfx
+
+    lp0 = setters[0]
+    while lp0 is not None and not isinstance(lp0, ast.For):
+        lp0 = getattr(lp0, "parent", None)
+    ctx.require(lp0 is not None, "per-sample loop containing the setter not found")
+    try:
+        sums = pathfx.summaries(cfg, src=cfg.node_of(lp0), dst=sn)
+    except OverflowError as e:
+        sums = None
+        ctx.ob(w.qual, "is_het-from-the-calls-own-genotype", None, w.loc(), "too many paths to the setter (%s)" % e)
+    if sums is not None:
+        ctx.require(len(sums) >= 2, "fewer than two paths from the per-sample loop to the setter")
+        bad = None
+        undecided = None
+        for ps in sums:
+            gts = [e for e in ps.effects if e[0] == "store" and util.const_key(e[1]) == "GT"]
+            if gts:
+                v = gts[-1][2]
+                if isinstance(v, ast.Call) and u(v.func) == "tuple" and len(v.args) == 1 and isinstance(v.args[0], ast.Call) and isinstance(v.args[0].func, ast.Attribute) and v.args[0].func.attr == "as_vector":
+                    X = u(v.args[0].func.value)
+                else:
+                    undecided = "GT is stored as %s" % u(v)[:60]
+                    continue
+            else:
+                sc = [e for e in ps.effects if e[0] == "call" and u(e[1].func) == "self._set_phasing_tags"]
+                if not sc or not sc[-1][1].args:
+                    undecided = "setter call not found at the end of the path"
+                    continue
+                X = "genotype_code(%s['GT'])" % u(sc[-1][1].args[0])
+            if not ps.has("%s.is_homozygous()" % X, False):
+                bad = (ps, X, bool(gts))
+        if undecided and bad is None:
+            ctx.ob(w.qual, "is_het-from-the-calls-own-genotype", None, w.loc(), undecided)
+        else:
+            ctx.ob(w.qual, "is_het-from-the-calls-own-genotype", bad is None, w.loc(setters[0]), "on each of the %d paths to the tag setter the call is known to be heterozygous in the genotype it is written with (the changed genotype if GT was changed on that path)" % len(sums) if bad is None else "the tag setter can be reached without `not %s.is_homozygous()` having been established (%s): a homozygous call can be marked phased" % (bad[1], "GT was changed on this path" if bad[2] else "GT unchanged on this path"), cfg.describe_path(bad[0].path) if bad else None)
     # skip guards dominate the per-sample section
     lp = setters[0]
     while lp is not None and not isinstance(lp, ast.For):
